@@ -11,6 +11,9 @@ mod world;
 mod c01;
 mod cworld;
 mod cbin;
+mod c11;
+mod c13;
+mod c14;
 mod c12;
 
 use rng::Rng;
@@ -45,7 +48,10 @@ fn main() {
         "C07" => cbin::cases_c07(&mut rng, count, tier),
         "C08" => cbin::cases_c08(&mut rng, count, tier),
         "C16" => cworld::cases_c16(&mut rng, count, tier),
+        "C11" => c11::cases(&mut rng, count, tier),
         "C12" => c12::cases(&mut rng, count, tier),
+        "C13" => c13::cases(&mut rng, count, tier),
+        "C14" => c14::cases(&mut rng, count, tier),
         _ => {
             eprintln!("unknown property {prop}");
             std::process::exit(2);
